@@ -23,7 +23,8 @@ def run(cmd, **kw):
 
 def main() -> int:
     sel = sys.argv[1:]
-    results = {}
+    out = ROOT / "seeded" / "SELFTEST.json"
+    results = json.loads(out.read_text()) if (sel and out.exists()) else {}
     for d in sorted((ROOT / "seeded").iterdir()):
         if not (d / "patch.diff").exists() or (sel and not any(d.name.startswith(s) for s in sel)):
             continue
@@ -50,7 +51,7 @@ def main() -> int:
         finally:
             run(["git", "-C", "/repo", "worktree", "remove", "--force", wt])
         print(d.name, results[d.name]["status"], results[d.name].get("first", ""), flush=True)
-    (ROOT / "seeded" / "SELFTEST.json").write_text(json.dumps(results, indent=1) + "\n")
+    out.write_text(json.dumps(dict(sorted(results.items())), indent=1) + "\n")
     bad = [k for k, v in results.items() if v["status"] != "caught"]
     print(f"{len(results) - len(bad)}/{len(results)} seeded changes caught" + (f"; NOT caught: {bad}" if bad else ""))
     # the checks above rewrote evidence files from scratch trees: the caller should re-run the quick checks on /repo
